@@ -20,6 +20,19 @@ fn with_layout<T: Clone, R>(xs: &[T], filler: T, layout: usize, f: impl FnOnce(n
 }
 const LAYOUTS: [&str; 4] = ["owned", "stride -1", "stride 2", "stride -2"];
 
+// Interleaver and Puncturer objects are LONG-LIVED here (one per configuration for the whole run, as a BER worker keeps them): the same
+// object serves calls of many different lengths, so anything an object remembers from an earlier call shows
+thread_local! {
+    static ILS: std::cell::RefCell<std::collections::HashMap<(usize, bool), Interleaver>> = std::cell::RefCell::new(Default::default());
+    static PUS: std::cell::RefCell<std::collections::HashMap<Vec<bool>, Puncturer>> = std::cell::RefCell::new(Default::default());
+}
+fn with_il<R>(c: usize, back: bool, f: impl FnOnce(&Interleaver) -> R) -> R {
+    ILS.with(|m| { let mut m = m.borrow_mut(); let il = m.entry((c, back)).or_insert_with(|| Interleaver::new(c, back)); f(il) })
+}
+fn with_pu<R>(pat: &[bool], f: impl FnOnce(&Puncturer) -> R) -> R {
+    PUS.with(|m| { let mut m = m.borrow_mut(); let pu = m.entry(pat.to_vec()).or_insert_with(|| Puncturer::new(pat)); f(pu) })
+}
+
 fn il_events(out: &mut Out, c: usize, r: usize, back: bool) {
     let n = c * r;
     let tags: Vec<i64> = (1..=n as i64).collect();
@@ -27,32 +40,32 @@ fn il_events(out: &mut Out, c: usize, r: usize, back: bool) {
     out.new_case();
     let lay = c + 2 * r + back as usize;
     let t32: Vec<u32> = tags.iter().map(|&t| t as u32).collect();
-    match guarded(|| with_layout(&t32, 0u32, lay, |v| Interleaver::new(c, back).interleave(&v).to_vec())) {
+    match guarded(|| with_layout(&t32, 0u32, lay, |v| with_il(c, back, |il| il.interleave(&v).to_vec()))) {
         Ok(y) => out.ev("Il", "ok", json!({"C": c, "back": back, "ty": "u32", "layout": LAYOUTS[lay % 4], "x": tags, "y": y})),
         Err(m) => out.ev("Il", "panic", json!({"C": c, "back": back, "ty": "u32", "x": tags, "msg": m})),
     }
     // f64 elements (tags are exactly representable)
     out.new_case();
-    match guarded(|| Interleaver::new(c, back).interleave(&Array1::from_iter(tags.iter().map(|&t| t as f64))).to_vec()) {
+    match guarded(|| with_il(c, back, |il| il.interleave(&Array1::from_iter(tags.iter().map(|&t| t as f64))).to_vec())) {
         Ok(y) => out.ev("Il", "ok", json!({"C": c, "back": back, "ty": "f64", "x": tags, "y": y.iter().map(|&v| v as i64).collect::<Vec<_>>()})),
         Err(m) => out.ev("Il", "panic", json!({"C": c, "back": back, "ty": "f64", "x": tags, "msg": m})),
     }
     // GF2 elements: a bit pattern (tag parity mixed) — values 0/1
     out.new_case();
     let bits: Vec<i64> = tags.iter().map(|&t| ((t * 7 + t / 3) % 2)).collect();
-    match guarded(|| Interleaver::new(c, back).interleave(&Array1::from_iter(bits.iter().map(|&b| if b == 1 { GF2::one() } else { GF2::zero() }))).to_vec()) {
+    match guarded(|| with_il(c, back, |il| il.interleave(&Array1::from_iter(bits.iter().map(|&b| if b == 1 { GF2::one() } else { GF2::zero() }))).to_vec())) {
         Ok(y) => out.ev("Il", "ok", json!({"C": c, "back": back, "ty": "gf2", "x": bits, "y": y.iter().map(|v| if v.is_one() { 1 } else { 0 }).collect::<Vec<i64>>()})),
         Err(m) => out.ev("Il", "panic", json!({"C": c, "back": back, "ty": "gf2", "x": bits, "msg": m})),
     }
     // deinterleave (slices) of tags, and of the interleaved stream produced independently by the formula
     out.new_case();
-    match guarded(|| Interleaver::new(c, back).deinterleave(&tags)) {
+    match guarded(|| with_il(c, back, |il| il.deinterleave(&tags))) {
         Ok(y) => out.ev("Dl", "ok", json!({"C": c, "back": back, "x": tags, "y": y})),
         Err(m) => out.ev("Dl", "panic", json!({"C": c, "back": back, "x": tags, "msg": m})),
     }
     out.new_case();
     let f: Vec<f64> = tags.iter().map(|&t| t as f64 + 0.5).collect();
-    match guarded(|| Interleaver::new(c, back).deinterleave(&f)) {
+    match guarded(|| with_il(c, back, |il| il.deinterleave(&f))) {
         Ok(y) => out.ev("Dl", "ok", json!({"C": c, "back": back, "x": tags, "y": y.iter().map(|v| (*v - 0.5) as i64).collect::<Vec<_>>()})),
         Err(m) => out.ev("Dl", "panic", json!({"C": c, "back": back, "x": tags, "msg": m})),
     }
@@ -63,13 +76,13 @@ fn pu_events(out: &mut Out, pat: &[bool], len: usize) {
     let tags: Vec<i64> = (1..=len as i64).collect();
     out.new_case();
     let lay = len + pat.len() + pat.iter().filter(|&&b| b).count();
-    match guarded(|| with_layout(&tags, -7i64, lay, |v| Puncturer::new(pat).puncture(&v))) {
+    match guarded(|| with_layout(&tags, -7i64, lay, |v| with_pu(pat, |pu| pu.puncture(&v)))) {
         Ok(Ok(y)) => out.ev("Pu", "ok", json!({"pat": p01, "x": tags, "v": "ok", "layout": LAYOUTS[lay % 4], "y": y.to_vec()})),
         Ok(Err(_)) => out.ev("Pu", "ok", json!({"pat": p01, "x": tags, "v": "err", "y": []})),
         Err(m) => out.ev("Pu", "panic", json!({"pat": p01, "x": tags, "msg": m})),
     }
     out.new_case();
-    match guarded(|| Puncturer::new(pat).depuncture(&tags)) {
+    match guarded(|| with_pu(pat, |pu| pu.depuncture(&tags))) {
         Ok(Ok(y)) => out.ev("De", "ok", json!({"pat": p01, "x": tags, "v": "ok", "y": y})),
         Ok(Err(_)) => out.ev("De", "ok", json!({"pat": p01, "x": tags, "v": "err", "y": []})),
         Err(m) => out.ev("De", "panic", json!({"pat": p01, "x": tags, "msg": m})),
@@ -77,7 +90,7 @@ fn pu_events(out: &mut Out, pat: &[bool], len: usize) {
     // f64 depuncture (the type the BER chain uses): zero must be exactly 0.0
     out.new_case();
     let f: Vec<f64> = tags.iter().map(|&t| t as f64).collect();
-    match guarded(|| Puncturer::new(pat).depuncture(&f)) {
+    match guarded(|| with_pu(pat, |pu| pu.depuncture(&f))) {
         Ok(Ok(y)) => {
             let exact = y.iter().all(|v| v.fract() == 0.0);
             out.ev("De", if exact { "ok" } else { "inexact" }, json!({"pat": p01, "x": tags, "v": "ok", "y": y.iter().map(|&v| v as i64).collect::<Vec<_>>()}))
